@@ -21,7 +21,7 @@ import (
 )
 
 func init() {
-	register(&Prop{ID: "C13", Module: "V.C13.Check", Gen: c13Gen, Quick: 240, Thorough: 5000, Shard: 40})
+	register(&Prop{ID: "C13", Module: "V.C13.Check", Gen: c13Gen, Quick: 200, Thorough: 5000, Shard: 40})
 }
 
 type c13Box struct {
@@ -54,7 +54,14 @@ func (v c13Scalar) text() string { // ScalarString of a plain scalar
 	return v.Boxes[0].Str
 }
 
-// ---------------------------------------------------------------- scoping (the generator's own)
+// ---------------------------------------------------------------- scoping and textual twin (the generator's own)
+
+func c13SetParents(t *c13Tree) {
+	for _, k := range t.Kids {
+		k.parent = t
+		c13SetParents(k)
+	}
+}
 
 func (t *c13Tree) varsOf() *c13Tree {
 	for _, k := range t.Kids {
@@ -74,9 +81,16 @@ func c13Kid(t *c13Tree, name string) *c13Tree {
 	return nil
 }
 
-// the value of ${path} seen from a node whose enclosing maps are [scopes], innermost first; nil = undefined
-func c13Lookup(scopes []*c13Tree, path []string) *c13Scalar {
-	for _, m := range scopes {
+// the variable ${path} means, seen from node n: the field of that path in the innermost enclosing vars block
+// that defines it.  One exception, without which `x: ${x}-b` would be circular: for a variable written directly
+// in a vars block, a reference that goes through its own name is looked up from the next block outwards.
+func c13FindVar(n *c13Tree, path []string) *c13Tree {
+	self := ""
+	if !n.IsEdge && n.parent != nil && n.parent.Name == "vars" && n.parent.IsMap {
+		self = n.Name
+	}
+	first := true
+	for m := n.parent; m != nil; m = m.parent {
 		vm := m.varsOf()
 		if vm == nil {
 			continue
@@ -88,31 +102,26 @@ func c13Lookup(scopes []*c13Tree, path []string) *c13Scalar {
 			if f == nil {
 				break
 			}
+			if first && self != "" && self == p {
+				break
+			}
 			if i == len(path)-1 {
 				found = f
 				break
 			}
 			cur = f
 		}
+		first = false
 		if found != nil && found.Prim != nil {
-			// a value built from other variables means what it means where it is defined
-			return c13Resolve(found.Prim, scopes[i0(scopes, m):], 0)
+			return found
 		}
 	}
 	return nil
 }
 
-func i0(scopes []*c13Tree, m *c13Tree) int {
-	for i, s := range scopes {
-		if s == m {
-			return i
-		}
-	}
-	return 0
-}
-
-// the plain scalar a scalar stands for (substitutions replaced), nil when a reference is undefined
-func c13Resolve(v *c13Scalar, scopes []*c13Tree, depth int) *c13Scalar {
+// the plain scalar that scalar v of node n stands for once every substitution is replaced by the text of its
+// value (a scalar that is one substitution becomes the value itself); nil when a reference is undefined
+func c13Value(n *c13Tree, v *c13Scalar, depth int) *c13Scalar {
 	hasSub := false
 	for _, b := range v.Boxes {
 		hasSub = hasSub || b.Sub != nil
@@ -120,11 +129,18 @@ func c13Resolve(v *c13Scalar, scopes []*c13Tree, depth int) *c13Scalar {
 	if !hasSub || v.Kind >= 2 {
 		return v
 	}
-	if depth > 6 {
+	if depth > 8 {
 		return nil
 	}
+	ref := func(p []string) *c13Scalar {
+		f := c13FindVar(n, p)
+		if f == nil {
+			return nil
+		}
+		return c13Value(f, f.Prim, depth+1)
+	}
 	if v.Kind == 0 && len(v.Boxes) == 1 {
-		return c13LookupD(scopes, v.Boxes[0].Sub, depth+1)
+		return ref(v.Boxes[0].Sub)
 	}
 	var sb strings.Builder
 	for _, b := range v.Boxes {
@@ -132,7 +148,7 @@ func c13Resolve(v *c13Scalar, scopes []*c13Tree, depth int) *c13Scalar {
 			sb.WriteString(b.Str)
 			continue
 		}
-		w := c13LookupD(scopes, b.Sub, depth+1)
+		w := ref(b.Sub)
 		if w == nil {
 			return nil
 		}
@@ -141,42 +157,34 @@ func c13Resolve(v *c13Scalar, scopes []*c13Tree, depth int) *c13Scalar {
 	return c13Plain(v.Kind, sb.String())
 }
 
-func c13LookupD(scopes []*c13Tree, path []string, depth int) *c13Scalar {
-	if depth > 6 {
-		return nil
-	}
-	return c13Lookup(scopes, path)
-}
-
 // ---------------------------------------------------------------- rendering
 
-func c13RenderScalar(v *c13Scalar, scopes []*c13Tree, twin bool, undefined *bool) string {
-	if v.Kind == 2 {
+func c13Quote(v *c13Scalar) string {
+	switch v.Kind {
+	case 1:
+		return "\"" + v.Boxes[0].Str + "\""
+	case 2:
 		return "'" + v.Boxes[0].Str + "'"
 	}
-	if v.Kind == 3 {
-		return v.Boxes[0].Str
-	}
-	if twin && v.Kind == 0 && len(v.Boxes) == 1 && v.Boxes[0].Sub != nil {
-		w := c13Lookup(scopes, v.Boxes[0].Sub)
+	return v.Boxes[0].Str
+}
+
+func c13RenderScalar(n *c13Tree, v *c13Scalar, twin bool, undefined *bool) string {
+	if twin {
+		w := c13Value(n, v, 0)
 		if w == nil {
 			*undefined = true
 			return "UNDEFINED"
 		}
-		return c13RenderScalar(w, nil, false, undefined)
+		return c13Quote(w)
+	}
+	if v.Kind >= 2 {
+		return c13Quote(v)
 	}
 	var b strings.Builder
 	for _, x := range v.Boxes {
 		if x.Sub == nil {
 			b.WriteString(x.Str)
-		} else if twin {
-			w := c13Lookup(scopes, x.Sub)
-			if w == nil {
-				*undefined = true
-				b.WriteString("UNDEFINED")
-			} else {
-				b.WriteString(w.text())
-			}
 		} else {
 			b.WriteString("${" + strings.Join(x.Sub, ".") + "}")
 		}
@@ -187,8 +195,7 @@ func c13RenderScalar(v *c13Scalar, scopes []*c13Tree, twin bool, undefined *bool
 	return b.String()
 }
 
-// scopes: enclosing maps of the fields being rendered, innermost first
-func c13Render(kids []*c13Tree, scopes []*c13Tree, ind string, twin bool, undefined *bool, b *strings.Builder) {
+func c13Render(kids []*c13Tree, ind string, twin bool, undefined *bool, b *strings.Builder) {
 	for _, k := range kids {
 		b.WriteString(ind)
 		if k.IsEdge {
@@ -198,13 +205,14 @@ func c13Render(kids []*c13Tree, scopes []*c13Tree, ind string, twin bool, undefi
 		}
 		wrote := false
 		if k.Prim != nil {
-			b.WriteString(": " + c13RenderScalar(k.Prim, scopes, twin, undefined))
+			b.WriteString(": " + c13RenderScalar(k, k.Prim, twin, undefined))
 			wrote = true
 		}
 		if len(k.Arr) > 0 {
 			var xs []string
 			for i := range k.Arr {
-				xs = append(xs, c13RenderScalar(&k.Arr[i], scopes, twin, undefined))
+				// array values are not Field nodes: the self-reference exception does not apply to them
+				xs = append(xs, c13RenderScalar(&c13Tree{parent: k.parent, IsEdge: true}, &k.Arr[i], twin, undefined))
 			}
 			b.WriteString(": [" + strings.Join(xs, "; ") + "]")
 			wrote = true
@@ -214,7 +222,7 @@ func c13Render(kids []*c13Tree, scopes []*c13Tree, ind string, twin bool, undefi
 				b.WriteString(":")
 			}
 			b.WriteString(" {\n")
-			c13Render(k.Kids, append([]*c13Tree{k}, scopes...), ind+"  ", twin, undefined, b)
+			c13Render(k.Kids, ind+"  ", twin, undefined, b)
 			b.WriteString(ind + "}")
 		}
 		b.WriteString("\n")
@@ -386,10 +394,12 @@ func c13CompileGraph(src string) (p c12Proj) {
 // ---------------------------------------------------------------- generator
 
 type c13G struct {
-	r       *Rng
-	undef   bool // plant one undefined reference
-	planted bool
-	nested  bool // variable values may refer to other variables
+	r         *Rng
+	undef     bool // plant one undefined reference
+	planted   bool
+	nested    bool // variable values may refer to other variables (grouped variables, self references, chains)
+	rootPlain bool // the root block's grouped variables are plain (inner blocks then show shadowing, not errors)
+	grouped   bool // only grouped variables that refer to plain variables; use sites refer to plain variables only
 }
 
 var c13Texts = []string{"alpha", "beta", "two words", "x1", "Mixed Case", "a-b_c"}
@@ -451,23 +461,97 @@ func c13SetVar(vm *c13Tree, path []string, v *c13Scalar) {
 	}
 }
 
+// the text variables every root block defines; grouped variables reuse these names
+var c13SelfNames = []string{"t1", "t2", "title"}
+
+// maps nested inside a vars block
+var c13Groups = [][]string{{"db"}, {"srv"}, {"srv", "inner"}}
+
+// a value that refers to variable p: alone, inside unquoted text, inside double-quoted text
+func (g *c13G) refValue(p []string) *c13Scalar {
+	switch g.r.Intn(5) {
+	case 0, 1:
+		return &c13Scalar{Kind: 0, Boxes: []c13Box{{Sub: p}}}
+	case 2:
+		return &c13Scalar{Kind: 0, Boxes: []c13Box{{Sub: p}, {Str: "-x"}}}
+	case 3:
+		return &c13Scalar{Kind: 0, Boxes: []c13Box{{Str: "pre-"}, {Sub: p}}}
+	}
+	return &c13Scalar{Kind: 1, Boxes: []c13Box{{Str: "q "}, {Sub: p}, {Str: " r"}}}
+}
+
+// full: the root block (defines every variable); inner: a block of a nested container
 func (g *c13G) varsBlock(full bool) *c13Tree {
+	r := g.r
 	vm := &c13Tree{Name: "vars", IsMap: true}
 	var types []string
 	for t := range c13VarNames {
 		types = append(types, t)
 	}
 	sort.Strings(types)
+	// Values are resolved in field order, in place: a value may only build on variables that stand before it in
+	// its block or in an outer block (anything else is the known finding C13-var-value-used-before-resolved).
+	if g.nested && !full && r.Chance(0.5) {
+		// a variable redefined from the outer variable of the same name (`x: ${x}-b`: the one legitimate
+		// use of "skip the block that holds the definition"); first in the block
+		n := r.Pick(c13SelfNames)
+		c13SetVar(vm, []string{n}, g.refValue([]string{n}))
+	}
 	for _, typ := range types {
 		for _, n := range c13VarNames[typ] {
-			if full || g.r.Chance(0.35) {
+			if c13Kid(vm, n) != nil {
+				continue
+			}
+			if full || r.Chance(0.35) {
 				c13SetVar(vm, strings.Split(n, "."), g.value(typ))
 			}
 		}
 	}
-	if g.nested && g.r.Chance(0.8) {
-		// a variable built from another one (outside the Coq model)
-		c13SetVar(vm, []string{"t2"}, &c13Scalar{Kind: 0, Boxes: []c13Box{{Sub: []string{"t1"}}, {Str: "-more"}}})
+	if g.nested {
+		// a variable built from another one (t1 must not stand after t2 in this block)
+		pos := func(n string) int {
+			for i, k := range vm.Kids {
+				if k.Name == n {
+					return i
+				}
+			}
+			return -1
+		}
+		if r.Chance(0.6) && !(pos("t2") >= 0 && pos("t1") > pos("t2")) {
+			c13SetVar(vm, []string{"t2"}, &c13Scalar{Kind: 0, Boxes: []c13Box{{Sub: []string{"t1"}}, {Str: "-more"}}})
+		}
+	}
+	if g.nested || g.grouped {
+		// grouped variables: maps nested in the block, at one or two levels, whose fields are named like
+		// variables of this or an outer block and refer to them; `db.t1: ${t1}` means the t1 of the innermost
+		// block that defines t1, which is this block when it defines one
+		for gi, grp := range c13Groups {
+			if !full && !r.Chance(0.55) {
+				continue
+			}
+			added := false
+			for _, n := range c13SelfNames {
+				if !full && !r.Chance(0.6) {
+					continue
+				}
+				var v *c13Scalar
+				switch k := r.Intn(6); {
+				case k == 0 || (full && g.rootPlain):
+					v = g.value("text")
+				case k <= 3:
+					v = g.refValue([]string{n})
+				case k == 4 || gi == 0 || g.grouped:
+					v = g.refValue([]string{r.Pick(c13SelfNames)})
+				default: // a variable of an earlier group
+					v = g.refValue([]string{"db", n})
+				}
+				c13SetVar(vm, append(append([]string(nil), grp...), n), v)
+				added = true
+			}
+			if !added {
+				c13SetVar(vm, append(append([]string(nil), grp...), "t1"), g.refValue([]string{"t1"}))
+			}
+		}
 	}
 	return vm
 }
@@ -478,7 +562,15 @@ func (g *c13G) ref(typ string) []string {
 		g.planted = true
 		return strings.Split(r.Pick([]string{"nope", "t9", "grp.zz", "zz.t"}), ".")
 	}
-	n := r.Pick(c13VarNames[typ])
+	names := c13VarNames[typ]
+	if typ == "text" && g.nested {
+		for _, grp := range c13Groups {
+			for _, n := range c13SelfNames {
+				names = append(append([]string(nil), names...), strings.Join(grp, ".")+"."+n)
+			}
+		}
+	}
+	n := r.Pick(names)
 	p := strings.Split(n, ".")
 	if r.Chance(0.15) {
 		p[0] = strings.ToUpper(p[0][:1]) + p[0][1:]
@@ -488,6 +580,9 @@ func (g *c13G) ref(typ string) []string {
 
 func (g *c13G) use(typ string) *c13Scalar {
 	r := g.r
+	if g.grouped && typ == "text" {
+		return c13Plain(0, r.Pick(c13Texts))
+	}
 	if typ != "text" {
 		switch r.Intn(5) {
 		case 0, 1, 2:
@@ -529,9 +624,13 @@ func (g *c13G) object(name string, depth int) *c13Tree {
 	}
 	o.IsMap = true
 	var edges []*c13Tree
-	varsLast := r.Chance(0.15)
+	varsLast := r.Chance(0.15) && !g.nested && !g.grouped
 	var vm *c13Tree
-	if depth > 0 && r.Chance(0.45) {
+	pv := 0.45
+	if g.nested || g.grouped {
+		pv = 0.7 // shadowing across two or three scopes
+	}
+	if depth > 0 && r.Chance(pv) {
 		vm = g.varsBlock(false)
 		if !varsLast {
 			o.Kids = append(o.Kids, vm)
@@ -592,7 +691,7 @@ func (g *c13G) program() []*c13Tree {
 	r := g.r
 	var root []*c13Tree
 	vm := g.varsBlock(true)
-	varsLast := r.Chance(0.12)
+	varsLast := r.Chance(0.12) && !g.nested && !g.grouped
 	if !varsLast {
 		root = append(root, vm)
 	}
@@ -614,8 +713,9 @@ func c13Cases(root []*c13Tree, class string, kf []string) []Case {
 	rootNode := &c13Tree{Name: "", IsMap: true, Kids: root}
 	var b, tb strings.Builder
 	undefined := false
-	c13Render(root, []*c13Tree{rootNode}, "", false, new(bool), &b)
-	c13Render(root, []*c13Tree{rootNode}, "", true, &undefined, &tb)
+	c13SetParents(rootNode)
+	c13Render(root, "", false, new(bool), &b)
+	c13Render(root, "", true, &undefined, &tb)
 	src, twin := b.String(), tb.String()
 
 	var out []Case
@@ -666,8 +766,7 @@ func c13Gen(r *Rng, tier string, n int) []Case {
 	out = append(out, c13Cases([]*c13Tree{vars(leaf("v", c13Plain(0, "outer"))),
 		{Name: "c", IsMap: true, Kids: []*c13Tree{vars(leaf("v", c13Plain(0, "inner"))), leaf("x", sub(0, "v"))}}, leaf("y", sub(0, "v"))}, "corpus", nil)...)
 	out = append(out, c13Cases([]*c13Tree{vars(leaf("v", c13Plain(0, "hi"))), leaf("x", sub(0, "nope"))}, "corpus-undefined", nil)...)
-	out = append(out, c13Cases([]*c13Tree{vars(&c13Tree{Name: "x"}), leaf("a", sub(1, "x"))}, "corpus-valueless",
-		[]string{"C13-valueless-var-in-quotes"})...)
+	out = append(out, c13Cases([]*c13Tree{vars(&c13Tree{Name: "x"}), leaf("a", sub(1, "x"))}, "corpus-valueless", nil)...)
 	out = append(out, c13Cases([]*c13Tree{vars(leaf("a", c13Plain(3, "1"))), leaf("x", sub(0, "a", "b"))}, "corpus-scalar-path",
 		[]string{"C13-path-into-scalar-var"})...)
 	out = append(out, c13Cases([]*c13Tree{leaf("x", &c13Scalar{Kind: 0, Boxes: []c13Box{{Str: "p"}, {Sub: []string{"b"}}}}),
@@ -681,9 +780,14 @@ func c13Gen(r *Rng, tier string, n int) []Case {
 		case 0:
 			g.undef = true
 			class = "undefined"
-		case 1:
+		case 1, 2:
 			g.nested = true
+			g.rootPlain = r.Chance(0.5)
 			class = "nested-values"
+		case 3:
+			g.grouped = true
+			g.rootPlain = r.Chance(0.5)
+			class = "grouped-vars"
 		}
 		root := g.program()
 		if g.undef && !g.planted {
